@@ -61,6 +61,8 @@
 extern crate libc;
 
 mod half_lock;
+#[cfg(sighook_verif)]
+pub mod verif_shim;
 
 use std::collections::hash_map::Entry;
 use std::collections::{BTreeMap, HashMap};
@@ -181,6 +183,8 @@ impl Slot {
         if unsafe { libc::sigaction(signal, &new, &mut old) } != 0 {
             return Err(Error::last_os_error());
         }
+        #[cfg(sighook_verif)]
+        verif_shim::event(verif_shim::Event::Installed, signal as usize, 0);
         Ok(Slot {
             prev: Prev { signal, info: old },
             actions: BTreeMap::new(),
@@ -384,6 +388,67 @@ extern "C" fn handler(sig: c_int, info: *mut siginfo_t, data: *mut c_void) {
         }
         // else -> probably should not happen, but races with other threads are possible so
         // better safe
+    }
+}
+
+/// Entry points for the external verification harness (only with `--cfg sighook_verif`).
+#[cfg(all(sighook_verif, not(windows)))]
+#[allow(missing_docs)]
+pub mod verif {
+    use super::*;
+
+    /// Calls the library's real signal dispatcher, as the kernel would.
+    pub unsafe fn deliver(sig: c_int, info: *mut siginfo_t, data: *mut c_void) {
+        handler(sig, info, data)
+    }
+
+    /// Address of the dispatcher (what `sigaction` reports once a signal is taken over).
+    pub fn handler_addr() -> usize {
+        handler as usize
+    }
+
+    /// Forget everything registered and return taken-over signals to `SIG_DFL`.
+    ///
+    /// Only for single-threaded, in-process fuzzing; no delivery or other call may be running.
+    pub unsafe fn reset() {
+        let globals = GlobalData::ensure();
+        let signals: Vec<c_int> = globals.data.write().signals.keys().cloned().collect();
+        for sig in signals {
+            let mut dfl: libc::sigaction = mem::zeroed();
+            dfl.sa_sigaction = libc::SIG_DFL;
+            libc::sigaction(sig, &dfl, ptr::null_mut());
+        }
+        GLOBAL_DATA = Some(GlobalData {
+            data: HalfLock::new(SignalData {
+                signals: HashMap::new(),
+                next_id: 1,
+            }),
+            race_fallback: HalfLock::new(None),
+        });
+    }
+
+    /// A thin wrapper over the half-lock, for small-scope exploration.
+    pub struct HalfLockProbe<T>(HalfLock<T>);
+
+    impl<T> HalfLockProbe<T> {
+        pub fn new(val: T) -> Self {
+            HalfLockProbe(HalfLock::new(val))
+        }
+        /// Run `f` inside a read section.
+        pub fn read<R, F: FnOnce(&T) -> R>(&self, f: F) -> R {
+            let guard = self.0.read();
+            f(&guard)
+        }
+        /// Replace the value (takes the writer lock, publishes, waits for readers, frees).
+        pub fn store(&self, val: T) {
+            self.0.write().store(val);
+        }
+        /// Read-copy-update under the writer lock.
+        pub fn update<F: FnOnce(&T) -> T>(&self, f: F) {
+            let mut lock = self.0.write();
+            let new = f(&lock);
+            lock.store(new);
+        }
     }
 }
 
